@@ -42,6 +42,12 @@ ONLY_FUNCS = {"sv/write_indel_files.py": {"cluster_indels", "write_indel_file"},
               "sv/segment_indels.py": {"look_for_indels_in_breakage"}}
 
 
+# unit-level checks first (cheap and specific), then the end-to-end ones; at most MAX_CHECKS per mutant
+PRIORITY = ["C12", "C13", "C14", "C15", "C16", "C17", "C19", "C20", "C03", "C01", "C04", "C02", "C05", "C08", "C18",
+            "C06", "C11", "C07", "C10", "C09"]
+MAX_CHECKS = int(os.environ.get("VERIF_MUT_MAXCHECKS", "4"))
+
+
 def file_props():
     m = {}
     with open(os.path.join(VERIF, "properties.jsonl")) as f:
@@ -243,7 +249,8 @@ def run_one(m, jobs, tier, extra_checks):
             return rec
         rec["checks"] = []
         env.update(VERIF_REPO=dst, VERIF_FAILFAST="1", VERIF_JOBS=str(jobs))
-        for c in list(m["props"]) + [x for x in extra_checks if x not in m["props"]]:
+        order = sorted(m["props"], key=lambda c: PRIORITY.index(c) if c in PRIORITY else 99)[:MAX_CHECKS]
+        for c in order + [x for x in extra_checks if x not in order]:
             try:
                 r = subprocess.run([os.path.join(VERIF, "vcheck"), c, "--tier", tier, "--no-evidence", "--no-replay-file"],
                                    capture_output=True, text=True, env=env, timeout=3600)
